@@ -42,7 +42,7 @@ Definition chk_promo (c : promo_case) : bool :=
   let '(cf, its, impl) := c in
   trace_eqb (filter is_cmp_event (run promo_sched cf (init promo0) its)) impl.
 
-Definition sync_case := (cfg * list (list (nat * Z)) * bool * list (iter_in (Q * Z) unit) * list event)%type.
+Definition sync_case := (cfg * list (list (nat * Z)) * bool * list (iter_in (option Q * Z) unit) * list event)%type.
 Definition chk_sync (c : sync_case) : bool :=
   let '(cf, tbl, mx, its, impl) := c in
   trace_eqb (filter is_cmp_event (run sync_sched cf (init (sync0 tbl mx)) its)) impl.
@@ -78,7 +78,7 @@ def gen_spec(rng, kind=None):
             spec["speculative"] = rng.choice(["score", "by_level", "random"])
             spec["max_num_checkpoints"] = spec["n_workers"] + rng.randint(1, 3)
     elif kind in ("sync", "dehb"):
-        spec.update(max_t=rng.choice([9, 9, 27, 8]), rf=rng.choice([2, 3]))
+        spec.update(max_t=rng.choice([9, 9, 27, 8]), rf=rng.choice([2, 3]), nan_den=rng.choice([None, 2, 3, 5]))
         if kind == "sync":
             # the Tuner installs RemoveCheckpointsCallback itself iff delete_checkpoints; a user may also add it
             spec["remove_callback"] = spec["delete_checkpoints"] or rng.random() < 0.3
@@ -185,6 +185,7 @@ def check_log(spec, log):
     never_again = {}     # trial -> index: removed as "can never be resumed"
     ended = False
     last_poll = -1
+    stop_of_paused = set()
     in_loop_end = False   # callbacks' on_loop_end phase: the only place where callback deletions belong
     for k, e in enumerate(log):
         tag = e[0]
@@ -240,9 +241,19 @@ def check_log(spec, log):
                                  dict(scheduler=kind.upper(), event="resume_after_delete", delete_context=ctx)))
             deleted.pop(i, None)
             state[i] = "running"
+        elif tag == "resume_rejected":
+            # the scheduler asked to resume i, the backend refused (status not paused)
+            i = e[1]
+            if i in deleted and deleted[i][0] != "speculative":
+                viol.append(("the scheduler resumes trial %d after delete_checkpoint(%d) (by %s, log index %d); the backend "
+                             "refuses because the trial is %s" % (i, i, deleted[i][0], deleted[i][1], state.get(i)),
+                             dict(scheduler=kind.upper(), event="resume_after_delete", delete_context=deleted[i][0])))
         elif tag == "pause":
             state[e[1]] = "paused"
         elif tag == "stop":
+            if state.get(e[1]) == "paused" and not ended:
+                # stop_trial (which deletes the checkpoint) on a trial the backend holds as paused
+                stop_of_paused.add(e[1])
             state[e[1]] = "stopped"
         elif tag == "stop_all":
             ended = True
@@ -255,7 +266,13 @@ def check_log(spec, log):
             if ended:
                 deleted.setdefault(i, (ctx, k))
                 continue
-            if i in sched_stop and state.get(i) == "stopped":
+            if i in stop_of_paused and ctx == "stop_trial":
+                viol.append(("stop_trial(%d) deletes the checkpoint of a trial that was paused (not running) when it was "
+                             "stopped: a paused trial must keep its checkpoint" % i,
+                             dict(scheduler=kind.upper(), event="delete_not_allowed", delete_context="stop_trial",
+                                  trial_state="paused")))
+                deleted[i] = (ctx, k)
+            elif i in sched_stop and state.get(i) == "stopped":
                 stats["stop_deletes"] += 1
                 deleted[i] = (ctx, k)
             elif ctx == "callback" and not in_loop_end:
@@ -421,7 +438,7 @@ def model_cases(spec, log, extra):
             for t, d in pair_reports(it):
                 ep = d[3] if d else 0
                 m = metric_value(spec, t, ep) if d else 0.0
-                reps.append("(%s, (%s, %s))" % (zl(t), q(m), zl(ep)))
+                reps.append("(%s, (%s, %s))" % (zl(t), "None" if m != m else "(Some %s)" % q(m), zl(ep)))
             n_sg = sum(1 for e in it["body"] if e[0] in ("start", "resume", "resume_rejected"))
             s_its.append(iter_term(reps, it["completed"], ["tt"] * n_sg, [], it["failed"]))
         tbl = lst([lst(["(%s, %s)" % (natlit(s), zl(l)) for s, l in rungs]) for rungs in extra["tbl"]])
@@ -524,6 +541,9 @@ def run(ctx, replay=None):
         ctx.h("callback", spec.get("speculative") or ("RemoveCheckpointsCallback" if spec.get("remove_callback") else "none"))
         for k in ("deletes", "stop_deletes", "removable", "resumes", "clones", "spec_resume_no_ckpt"):
             ctx.h("events", k, stats[k])
+        if spec.get("nan_den"):
+            ctx.h("nan_metric", "reports_with_NaN", sum(1 for e in log if e[0] == "decision" and
+                                                       metric_value(spec, e[1], e[3]) != metric_value(spec, e[1], e[3])))
         ctx.h("failures", "jobs_failed", sum(len(e[3]) for e in log if e[0] == "poll"))
         ctx.h("failures", "failed_in_poll_with_own_report", sum(1 for e in log if e[0] == "poll" for t in e[3] if t in e[1]))
         ctx.h("polls_with_2plus_trials", sum(1 for e in log if e[0] == "poll" and len(set(e[1])) >= 2) > 0)
